@@ -256,9 +256,112 @@ def rule45_alloc(ctx, fl, v):
                    'head and in-use mark are read inside the same lock region as the update', loc=l.loc)
         for r in f.exits():
             ctx.ob('C10.5', '%s: lock released at return' % f.name, not la.held_may(r), 'no lock held at return', loc=r.loc)
-        ctx.ob('C10.5', '%s: balanced locking' % f.name, not la.double_unlock and not la.relock, 'lock/unlock paired', loc=f.loc)
+        ctx.ob('C10.5', '%s: balanced locking' % f.name, not la.double_unlock and not la.relock and not la.unheld_unlock, 'lock/unlock paired: every release is of a lock held on all paths reaching it', loc=f.loc)
     ctx.floor('C10.4', 7)
     ctx.floor('C10.5', 8)
+
+
+def rule4_init_chain(ctx, fl):
+    """myth_tls_key_allocator_init builds the free list inside keys[]: every link it stores points at a cell of the array, every cell
+    gets a link or the terminator, the head is a cell.  Decided for the forward-loop form (keys[i].next = &keys[i + d] for i in a
+    constant range, plus constant-index stores); another construction is recorded as not decided, never as a violation."""
+    v = ctx.view(NATIVE, roots=['myth_tls_key_allocator_init'], stops=lib.SPIN_STOPS, flavour=fl)
+    f = ctx.need_fn(v, 'myth_tls_key_allocator_init')
+    NEXT = 'myth_tls_key_entry.next'
+    KEYS = 'myth_tls_key_allocator.keys'
+    ent = [x for x in v.structs.get('myth_tls_key_allocator', {}).get('fields', []) if x['name'] == 'keys']
+    N = ent[0].get('nelem') if ent else None
+    ctx.ob('C10.4', 'init: size of keys[] known', bool(N) and N > 1, 'array length from debug info', loc=f.loc)
+    if not N or N <= 1:
+        return
+
+    def cell_index(ptr):
+        """(kind, value): ('null',), ('const', k), ('iv', phi, offset) for &keys[k] / &keys[iv + offset] of the allocator a0, else None"""
+        if isinstance(ptr, dict) and (ptr.get('null') or ptr.get('c') == 0):
+            return ('null',)
+        ap = f.ap(ptr)
+        if f.strip(ap.root) != 'a0' or not ap.steps or ap.steps[0] != ('f', KEYS):
+            return None
+        idx = [s_ for s_ in ap.steps[1:] if s_[0] in ('i', 'p')]
+        rest = [s_ for s_ in ap.steps[1:] if s_[0] == 'f']
+        if len(idx) != 1 or (rest and rest != [('f', NEXT)]):
+            return None
+        k = idx[0][1]
+        if isinstance(k, int):
+            return ('const', k)
+        a = {t: c for t, c in lib.affine(f, k).items() if c != 0}
+        ts = [t for t in a if t != '']
+        if not ts:
+            return ('const', a.get('', 0))
+        if len(ts) == 1 and a[ts[0]] == 1 and ts[0] in f.insts and f.insts[ts[0]].op == 'phi':
+            return ('iv', ts[0], a.get('', 0))
+        return None
+
+    def iv_range(phi_id):
+        """exact [lo, hi] of a loop counter: constant start, step +1, one exit test iv < B / iv <= B in the header"""
+        ph = f.insts[phi_id]
+        li = f.loop_of_block(ph.block.id)
+        if li is None or f.loops[li]['header'] != ph.block.id or len(ph.d['incoming']) != 2:
+            return None
+        L = f.loops[li]
+        init = [v_ for v_, b in ph.d['incoming'] if b not in L['blocks']]
+        back = [v_ for v_, b in ph.d['incoming'] if b in L['blocks']]
+        lo = const_int(init[0]) if init else None
+        if lo is None or not back or {t: c for t, c in lib.affine_diff(f, back[0], phi_id).items() if c != 0} != {'': 1}:
+            return None
+        if len(L['exits']) != 1:
+            return None
+        for ic in f.blocks[L['header']].insts:
+            if ic.op == 'icmp' and f.strip(ic.ops[0]) == phi_id and const_int(ic.ops[1]) is not None:
+                B = const_int(ic.ops[1])
+                if ic.pred in ('slt', 'ult'):
+                    return (lo, B - 1, L)
+                if ic.pred in ('sle', 'ule'):
+                    return (lo, B, L)
+        return None
+    sts = [st for st in f.stores_to(NEXT)]
+    covered, undecided, bad = set(), [], []
+    for st in sts:
+        a, val = cell_index(st.ops[1]), cell_index(st.ops[0])
+        if a is None or val is None:
+            undecided.append(st)
+            continue
+        if a[0] == 'const':
+            cells = [a[1]]
+            vals = [val[1]] if val[0] == 'const' else ([None] if val[0] == 'null' else None)
+            if vals is None:
+                undecided.append(st)
+                continue
+        else:
+            r = iv_range(a[1])
+            if r is None or not (val[0] == 'null' or (val[0] == 'iv' and val[1] == a[1]) or val[0] == 'const') or \
+                    st.block.id not in r[2]['blocks'] or not f.dominates_f(st, f.blocks[r[2]['latches'][0]].insts[-1]):
+                undecided.append(st)
+                continue
+            cells = list(range(r[0] + a[2], r[1] + a[2] + 1))
+            vals = [None] if val[0] == 'null' else ([val[1]] if val[0] == 'const' else [r[0] + val[2], r[1] + val[2]])
+        covered |= set(cells)
+        for c_ in cells[:1] + cells[-1:]:
+            if c_ < 0 or c_ >= N:
+                bad.append((st, 'cell %d written' % c_))
+        for v_ in vals:
+            if v_ is not None and (v_ < 0 or v_ >= N):
+                bad.append((st, 'link to keys[%d]' % v_))
+    ctx.ob('C10.4', 'init: every link stored points at a cell of keys[0..%d]' % (N - 1), not bad,
+           'a link one past the array makes the %d-th myth_key_create succeed with an index no thread-specific tree can hold and the '
+           'allocator write past its own table' % (N + 1), loc=(bad[0][0].loc if bad else f.loc), detail='; '.join(b_[1] for b_ in bad[:3]))
+    if undecided or not sts:
+        ctx.note('C10.4 init chain: %d store(s) to next in a form the rule does not decide (no claim about cell coverage)' % len(undecided))
+    else:
+        missing = [k for k in range(N) if k not in covered]
+        ctx.ob('C10.4', 'init: every cell of keys[] gets a link or the terminator', not missing,
+               'a cell whose next is never written ends the free list with whatever the memory held', loc=f.loc,
+               detail='never written: keys[%s]' % ', '.join(str(k) for k in missing[:4]))
+    fr = f.stores_to('myth_tls_key_allocator.free')
+    for st in fr:
+        c_ = cell_index(st.ops[0])
+        if c_ is not None and c_[0] == 'const':
+            ctx.ob('C10.4', 'init: the free list starts at a cell of keys[]', 0 <= c_[1] < N, 's->free = &s->keys[0]', loc=st.loc)
 
 
 def rule2_levels(ctx, v):
@@ -337,12 +440,17 @@ def run(ctx):
         rule2_decomp(ctx, v)
         rule3_follows(ctx, fl)
         rule45_alloc(ctx, fl, v)
+        rule4_init_chain(ctx, fl)
         rule6_reuse(ctx, v)
         rule2_levels(ctx, v)
 
 
 TLS = 'src/myth_tls_func.h'
 MUTANTS = [
+    {'name': 'key allocator init chains one cell too far and drops the terminator (seed3 C10/m2)', 'expect': 'C10.4',
+     'edits': [(TLS, "  for (i = 0; i < myth_tls_n_keys - 1; i++) {\n    s->keys[i].next = &s->keys[i + 1];\n  }\n  s->keys[myth_tls_n_keys - 1].next = 0;", "  for (i = 0; i < myth_tls_n_keys; i++) {\n    s->keys[i].next = &s->keys[i + 1];\n  }")]},
+    {'name': 'key allocator dealloc releases the lock on the rejected-index path too (seed3 C10/m3)', 'expect': 'C10.5',
+     'edits': [(TLS, "  if (key < 0 || key >= myth_tls_n_keys) {\n    return (myth_tls_destructor_fun_t)-1;\n  }\n  myth_tls_key_entry_t * ke = &s->keys[key];", "  if (key < 0 || key >= myth_tls_n_keys) {\n    myth_spin_unlock_body(&s->lock);\n    return (myth_tls_destructor_fun_t)-1;\n  }\n  myth_tls_key_entry_t * ke = &s->keys[key];")]},
     {'name': 'native myth_setspecific forwards a NULL value', 'expect': 'C10.7',
      'edits': [('src/myth_if_native.c', "  return myth_setspecific_body(key, pointer);", "  return myth_setspecific_body(key, 0);")]},
     {'name': 'tree_set allocates an internal node for the leaf level (sweep M0599)', 'expect': 'C10.2',
